@@ -31,6 +31,11 @@ func ProfileFor(prop string) Profile {
 	case "limit":
 		p.MaxHeight = 6
 		p.WBind = 25
+	case "inner":
+		p.Inner = 50
+		p.WBind = 35
+		p.WSet = 32
+		p.WObserve = 16
 	case "wide":
 		p.Wide = true
 		p.MapNShare = 35
